@@ -48,8 +48,25 @@ JudgeVerifier(rec) ==
           <<~should => ~accepted, "stream accepted although its digest differs from the recorded hash">>,
           <<rec.in.recorded = "equal" => rec.size_ok, "recorded size differs from the stream length">> >>)
 
+\* one hasher used again and again: abstract state = the number of bytes written so far; every Sum and every entry
+\* built from the hasher (by value) reports the true digest and the length of exactly those bytes
+JudgeLife(rec) ==
+    LET ops == rec.in.ops
+        written[k \in 0..Len(ops)] == IF k = 0 THEN 0 ELSE written[k - 1] + ops[k].n
+        Bad(k) == LET st == rec.steps[k] IN
+                  CASE ops[k].op = "w" -> st.err \/ st.n # ops[k].n
+                    [] ops[k].op = "s" -> st.sum_is # rec.in.alg \/ st.size # written[k]
+                    [] ops[k].op = "e" -> st.sum_is # rec.in.alg \/ st.size # written[k] \/ st.entry_alg # rec.in.alg
+        bad == {k \in 1..Len(ops) : Bad(k)}
+    IN Checks("hasher-lifecycle",
+       << <<rec.new_ok, "constructor failed for a known algorithm">>,
+          <<Len(rec.steps) = Len(ops), "missing steps">>,
+          <<Len(rec.steps) = Len(ops) => bad = {},
+            "a hasher that is used again after Sum or after an entry was built from it no longer reports the true digest / length of the bytes written">> >>)
+
 Judge(rec) ==
-    CASE rec.ev = "hw" -> JudgeHW(rec)
+    CASE rec.ev = "hasher_life" -> JudgeLife(rec)
+      [] rec.ev = "hw" -> JudgeHW(rec)
       [] rec.ev = "hr" -> JudgeHR(rec)
       [] rec.ev = "verifier" -> JudgeVerifier(rec)
       [] OTHER -> V(FALSE, "unknown-event", "unknown event")
